@@ -1014,6 +1014,15 @@ def pack_history(hostile, kind, idx, pos):
             # rejected (a crash with a traceback -- e.g. zlib.error -- is ungraceful but not "silently used").  Whatever was
             # half extracted must not count as a result later on: a purely local build in the same workspace is right
             how = 'rejected' if o == 'error' else 'rejected-by-internal-error'
+            # the user simply tries again: still rejected, or right -- never the damaged content
+            o, outs, res = invoke(w, st, False, ['--download=deps'])
+            if o == 'ok':
+                want = clean_build({k: v for k, v in st.items() if k != 'archive'}, False)
+                if outs.get('app') != want['app']:
+                    return False, 'damaged-artifact-used-on-retry'
+                for key in w.cooked:
+                    if w.by_vid.get(key) != clean_build.last.by_vid.get(key):
+                        return False, 'damaged-artifact-used-on-retry'
             o, outs, res = invoke(w, st, False, ['--download=no'])
             if o != 'ok':
                 return False, 'workspace-unusable-after-rejected-download'
